@@ -1209,8 +1209,29 @@ func (w *c01World) inFallback(p *c01Pod) bool {
 	return p.In == extension.DefaultQuotaName && p.Spec.Label != "" && p.Spec.Label != extension.DefaultQuotaName
 }
 
+// reservedParkedPods: pods holding a reservation while parked in the default quota although their own quota exists.
+func (w *c01World) reservedParkedPods() []string {
+	var out []string
+	for _, pn := range vk.SortedKeys(w.pods) {
+		if p := w.pods[pn]; w.misrouted(p) && p.Assigned && p.Spec.Node == "" {
+			out = append(out, pn)
+		}
+	}
+	return out
+}
+
 func (w *c01World) opPodUpdate(t *rapid.T) {
-	w.podUpdate(t, rapid.SampledFrom(vk.SortedKeys(w.pods)).Draw(t, "pod"))
+	names := vk.SortedKeys(w.pods)
+	if w.flags.Parked {
+		// prefer a pod that holds a reservation while parked in the default quota although its own quota exists: the update
+		// moves it over and has to take the reservation along
+		for _, pn := range vk.SortedKeys(w.pods) {
+			if p := w.pods[pn]; w.misrouted(p) && p.Assigned && p.Spec.Node == "" {
+				names = append(names, pn, pn, pn, pn)
+			}
+		}
+	}
+	w.podUpdate(t, rapid.SampledFrom(names).Draw(t, "pod"))
 }
 
 func (w *c01World) podUpdate(t *rapid.T, name string) {
@@ -1541,7 +1562,10 @@ func (w *c01World) enabledOps() []c01Op {
 		add("quotaReparent", 1, len(w.reparentMoves()) > 0, w.opReparent)
 		add("quotaDelete", 2, len(w.deleteCandidates()) > 0, w.opQuotaDelete)
 		add("podAdd", 6, len(w.pods) < len(c01PodNames), w.opPodAdd)
-		add("podUpdate", 3, len(w.pods) > 0, w.opPodUpdate)
+		add("podUpdate", 4, len(w.pods) > 0, w.opPodUpdate)
+		add("podUpdateOfReservedParkedPod", 6, len(w.reservedParkedPods()) > 0, func(t *rapid.T) {
+			w.podUpdate(t, rapid.SampledFrom(w.reservedParkedPods()).Draw(t, "pod"))
+		})
 		add("podDelete", 2, len(w.pods) > 0, w.opPodDelete)
 		add("reserve", 8, len(w.reserveCandidates()) > 0, w.opReserve)
 		add("unreserve", 8, len(w.unreserveCandidates()) > 0, w.opUnreserve)
